@@ -252,6 +252,11 @@ func genCtorLeaseSet2(g *G, rich bool) {
 		g.emit("!ctorLeaseSet2", itoa(sig), "4", g.seed(), "1700000000", "600", "0", "-", "-", "4:32", "1", "signer-object")
 	}
 	g.emit("!ctorLeaseSet2", "7", "4", g.seed(), "1700000000", "600", "0", "-", "-", "4:32", "1", "nil-key-placeholder")
+	// unsigned placeholders with an offline block of every transient type: the placeholder is sized by the
+	// transient type, so the value must still validate and survive the wire
+	for _, off := range []string{"7", "11", "1", "2", "0"} {
+		g.emit("!ctorLeaseSet2", "7", "4", g.seed(), "1700000000", "600", "1", off, "-", "4:32", "1", "nil-key-placeholder")
+	}
 	g.emit("!ctorLeaseSet2", "7", "4", g.seed(), "1700000000", "600", "0", "-", "-", "4:32", "1", "unsupported-signing-key-type")
 }
 
